@@ -38,8 +38,8 @@ import (
 // the ugnot supply must be what it was at genesis.
 
 const (
-	vaultPath = "gno.land/r/sim/vault"
-	thiefPath = "gno.land/r/sim/thief"
+	vaultPath  = "gno.land/r/sim/vault"
+	thiefPath  = "gno.land/r/sim/thief"
 	vaultDenom = "/" + vaultPath + ":vlt"
 )
 
@@ -327,13 +327,13 @@ type watched struct {
 
 type coinWorld struct {
 	*world
-	watch   []watched
-	lower   map[string]map[string]int64 // name -> denom -> lower bound of the balance after the block
-	why     map[string][]string         // name -> authorised decreases of the current block (for messages)
-	vltSupply int64
-	ugnotSupply int64
-	atks    []atk
-	kept    bool // thief.Keep succeeded earlier
+	watch                                     []watched
+	lower                                     map[string]map[string]int64 // name -> denom -> lower bound of the balance after the block
+	why                                       map[string][]string         // name -> authorised decreases of the current block (for messages)
+	vltSupply                                 int64
+	ugnotSupply                               int64
+	atks                                      []atk
+	kept                                      bool // thief.Keep succeeded earlier
 	vaultAddr, vaultStore, thiefAddr, feeColl crypto.Address
 }
 
@@ -375,15 +375,15 @@ func (w *coinWorld) sync(au *auditor) {
 
 // ctx of a generated attack: who is `cur`, who signed, what was attached.
 type ctTx struct {
-	signer  string
-	bytes   []byte
-	fee     int64
-	desc    string
-	attack  string // template bucket ("" = legitimate traffic)
-	onOK    func(r txResult)
-	mustFail string // non-empty: reason why this tx may never succeed
-	legit   bool   // a state-changing legitimate operation
-	mayRelease bool // a user's direct call of a vault function that rewrites the vault's journal (its storage may shrink)
+	signer     string
+	bytes      []byte
+	fee        int64
+	desc       string
+	attack     string // template bucket ("" = legitimate traffic)
+	onOK       func(r txResult)
+	mustFail   string // non-empty: reason why this tx may never succeed
+	legit      bool   // a state-changing legitimate operation
+	mayRelease bool   // a user's direct call of a vault function that rewrites the vault's journal (its storage may shrink)
 }
 
 func (w *coinWorld) sign(signer string, gas int64, msgs ...std.Msg) []byte {
